@@ -15,6 +15,7 @@ def run_handler_start(unroll=1, extra=(), depth=1):
         p.events.append(Event('remove', call.short.split('::')[-1], call.args[1:], None, call.span))
         k(p, UNIT)
     ex = e2.executor('anemo', list(extra) + CONNECTION_MODELS + [(r'ActivePeers::(remove|remove_with_stable_id)$', m_rm)], max_depth=depth, unroll=unroll)
+    e2.require_methods(ex.prog, ('ActivePeers', 'remove_with_stable_id'))
     parent = find_method(ex.prog, 'InboundRequestHandler', 'start')
     fn = find_closure(ex.prog, parent, [0])
     p, args = coroutine_start(ex, fn)
